@@ -65,6 +65,47 @@ class CustomMapping(collections.abc.Mapping):
         return len(self._d)
 
 
+class SizedOneShot:
+    """a one-shot iterator written as a class that also knows how many elements are left (`__len__`), like a batch cursor"""
+
+    def __init__(self, items):
+        self._items = list(items)
+        self._i = 0
+
+    def __iter__(self):
+        return self
+
+    def __next__(self):
+        if self._i >= len(self._items):
+            raise StopIteration
+        self._i += 1
+        return self._items[self._i - 1]
+
+    def __len__(self):
+        return len(self._items) - self._i
+
+
+class SizedOneShotCollection(SizedOneShot):
+    """... and answers membership tests as well (a full collections.abc.Collection), still one-shot"""
+
+    def __contains__(self, x):
+        return x in self._items[self._i:]
+
+
+class SigKwOnly:
+    """no annotations: the members are what the constructor's signature names, a keyword-only parameter among them"""
+
+    def __init__(self, host=1, port=2, *, timeout=30):
+        self.host, self.port, self.timeout = host, port, timeout
+
+
+class SigKwOnlySlots:
+    __slots__ = ("host", "port", "timeout")
+
+    def __init__(self, host=1, port=2, *, timeout=30, **extra):
+        self.host, self.port, self.timeout = host, port, timeout
+
+
 # structured flavours (module-level, fixed shapes with a first field that can hold anything)
 
 @dataclasses.dataclass
@@ -225,8 +266,8 @@ def case(draw):
         return {"cat": cat, "kind": kind, "content": list(d.items())}
     if cat == "structured":
         kind = draw(st.sampled_from(["DC", "DCFrozen", "DCSlots", "Plain", "SlotsOnly", "VarsOnly", "SlotsAnn", "SlotsAnnSub", "SlotsReordered", "DCSub", "DCMapNames", "SlotsMapNames",
-                                     "PlainBadHint", "SlotsBadHint", "PlainBadHintSub"]))
-        n = {"PlainBadHint": 3, "SlotsBadHint": 3, "PlainBadHintSub": 3, "DC": 3, "DCFrozen": 2, "DCSlots": 2, "Plain": 3, "SlotsOnly": 3, "VarsOnly": draw(st.integers(0, 3)),
+                                     "PlainBadHint", "SlotsBadHint", "PlainBadHintSub", "SigKwOnly", "SigKwOnlySlots"]))
+        n = {"PlainBadHint": 3, "SlotsBadHint": 3, "PlainBadHintSub": 3, "SigKwOnly": 3, "SigKwOnlySlots": 3, "DC": 3, "DCFrozen": 2, "DCSlots": 2, "Plain": 3, "SlotsOnly": 3, "VarsOnly": draw(st.integers(0, 3)),
              "SlotsAnn": 2, "SlotsAnnSub": 3, "SlotsReordered": 2, "DCSub": 3, "DCMapNames": 3, "SlotsMapNames": 2}[kind]
         vals = [draw(st.one_of(two_elem, anyval)) for _ in range(n)]
         return {"cat": cat, "kind": kind, "content": vals}
@@ -235,7 +276,7 @@ def case(draw):
         n = {"NT2": 2, "NT1": 1, "NTc": 3, "NTsub": 2, "NTcsub": 2, "NTgen": 2}[kind]
         vals = [draw(st.one_of(two_elem, anyval)) for _ in range(n)]
         return {"cat": cat, "kind": kind, "content": vals}
-    kind = draw(st.sampled_from(["list", "tuple", "deque", "set", "frozenset", "generator", "iter", "map", "dictitems"]))
+    kind = draw(st.sampled_from(["list", "tuple", "deque", "set", "frozenset", "generator", "iter", "map", "dictitems", "sizediter", "sizedcollectioniter"]))
     if cat == "empty":
         return {"cat": cat, "kind": kind, "content": []}
     if cat == "text":
@@ -306,6 +347,9 @@ def build(c):
             x = {"PlainBadHint": PlainBadHint, "SlotsBadHint": SlotsBadHint}[kind]()
             x.a, x.b, x.c = v
             pairs = [("a", v[0]), ("b", v[1]), ("c", v[2])]
+        elif kind in ("SigKwOnly", "SigKwOnlySlots"):
+            x = {"SigKwOnly": SigKwOnly, "SigKwOnlySlots": SigKwOnlySlots}[kind](v[0], v[1], timeout=v[2])
+            pairs = [("host", v[0]), ("port", v[1]), ("timeout", v[2])]
         elif kind == "PlainBadHintSub":
             x = PlainBadHintSub()
             x.first, x.second, x.extra = v
@@ -342,6 +386,10 @@ def build(c):
         x = set(content)
     elif kind == "frozenset":
         x = frozenset(content)
+    elif kind == "sizediter":
+        x = SizedOneShot(content)
+    elif kind == "sizedcollectioniter":
+        x = SizedOneShotCollection(content)
     elif kind == "generator":
         x = (e for e in content)
     elif kind == "iter":
@@ -357,9 +405,9 @@ def build(c):
 
 
 def nontrivial(c, x):
-    if c["cat"] == "empty" or c["kind"] in ("generator", "iter", "map"):
+    if c["cat"] == "empty" or c["kind"] in ("generator", "iter", "map", "sizediter", "sizedcollectioniter"):
         return True
-    if c["cat"] == "namedtuple" or c["kind"] in ("DC", "Plain", "SlotsOnly", "VarsOnly", "SlotsAnn", "SlotsAnnSub", "SlotsReordered", "DCSub", "DCMapNames", "SlotsMapNames", "PlainBadHint", "SlotsBadHint", "PlainBadHintSub"):
+    if c["cat"] == "namedtuple" or c["kind"] in ("DC", "Plain", "SlotsOnly", "VarsOnly", "SlotsAnn", "SlotsAnnSub", "SlotsReordered", "DCSub", "DCMapNames", "SlotsMapNames", "PlainBadHint", "SlotsBadHint", "PlainBadHintSub", "SigKwOnly", "SigKwOnlySlots"):
         return True
     content = c["content"]
     if c["cat"] in ("pairs", "mixed") and content:
